@@ -372,6 +372,25 @@ tunnel-group-map ca-map-G1 10 VPN-tunnel-G1
 aaa-server LDAP_KV protocol ldap
 aaa-server LDAP_KV host X
 `),
+		// an interface Netspoc does not use carries an access-group (ACL with object-group) AND a crypto map: all of it is the
+		// administrator's (seeded change C07-Z1: the crypto map binding overwrote the access-groups in the protection table)
+		mk("unknown-interface-with-access-group-and-crypto-map", `
+access-list inside_in-DRC-0 extended permit ip any4 any4
+access-group inside_in-DRC-0 in interface inside
+object-group network g-web
+ network-object host 10.1.2.10
+access-list dmz_in extended permit tcp any4 object-group g-web eq 80
+access-group dmz_in in interface dmz
+crypto ipsec ikev1 transform-set ESP-AES esp-aes-256 esp-sha-hmac
+access-list crypto-dmz extended permit ip 10.1.2.0 255.255.255.0 10.9.0.0 255.255.0.0
+crypto map map-dmz 10 match address crypto-dmz
+crypto map map-dmz 10 set peer 10.2.2.2
+crypto map map-dmz 10 set ikev1 transform-set ESP-AES
+crypto map map-dmz interface dmz
+`, `
+access-list inside_in extended permit ip any4 any4
+access-group inside_in in interface inside
+`),
 		// the target has no VPN part at all: everything is removed in an order the device accepts
 		mk("everything-removed", `
 access-list vpn-filter-DRC-0 extended permit ip host 10.3.4.1 10.1.1.0 255.255.255.0
